@@ -141,6 +141,7 @@ structure InvR (c : Cfg) (s : State) : Prop where
   rlNodup : s.rl.Nodup
   rlPushed : ∀ x ∈ s.rl, s.pushed x = true
   pushedPub : ∀ x, s.pushed x = true → s.pub x = true
+  pushedSup : ∀ x, s.pushed x = true → ∃ g, s.supAt x = some g
   holdsFresh : ∀ t x, (s.pc t).holds = some x → s.pushed x = false ∧ s.pub x = true ∧ ∃ g, s.supAt x = some g
   holdsDistinct : ∀ t u x, t ≠ u → (s.pc t).holds = some x → (s.pc u).holds ≠ some x
   headStamp : s.hnode ≠ 0 → s.hts = s.stampOf s.hnode
@@ -176,6 +177,7 @@ theorem InvR.frame {c : Cfg} {s s' : State} (h : InvR c s)
   · rw [hrl]; exact h.rlNodup
   · intro x hx; rw [hrl] at hx; rw [hpushed]; exact h.rlPushed x hx
   · intro x hx; rw [hpushed] at hx; exact hpub x (h.pushedPub x hx)
+  · intro x hx; rw [hpushed] at hx; rw [hsup]; exact h.pushedSup x hx
   · intro t x hx
     rcases hpc t with he | ⟨he, _⟩
     · rw [he] at hx; rw [hpushed, hsup]
@@ -218,5 +220,682 @@ theorem InvR.frame {c : Cfg} {s s' : State} (h : InvR c s)
     obtain ⟨g, h1, h2, h3⟩ := h.freedOk hst x v (hfreed x v hf)
     exact ⟨g, by rw [hsup]; exact h1, h2, Nat.le_trans h3 hnow⟩
   · intro hr; rw [hstale]; exact h.rereadOk hr
+
+
+theorem Pc.lhead_of_freshClock {c : Cfg} {p : Pc} {ln v : Nat} (h : p.freshClock c = some (ln, v)) :
+    ∃ lts, p.lhead = some (lts, ln) := by
+  cases p <;> simp_all [Pc.freshClock, Pc.lhead]
+
+/-- a thread inside retire / gc moves to its next program counter (possibly reading the clock); the
+list itself is untouched -/
+theorem InvR.pcStep {c : Cfg} {s s' : State} (h : InvR c s) (t : Nat) (p' : Pc)
+    (hhts : s'.hts = s.hts) (hhn : s'.hnode = s.hnode) (hnext : s'.next = s.next) (hrl : s'.rl = s.rl)
+    (hpushed : s'.pushed = s.pushed) (hstamp : s'.stampOf = s.stampOf) (hstale : s'.stale = s.stale)
+    (hsup : s'.supAt = s.supAt) (hpub : s'.pub = s.pub) (hnow : s.now ≤ s'.now) (hfreed : s'.freedT = s.freedT)
+    (hpc : s'.pc = upd s.pc t p')
+    (H1 : p'.holds = (s.pc t).holds ∨ p'.holds = none)
+    (H2 : ∀ lts ln, p'.lhead = some (lts, ln) → ln ≠ 0 → s.pushed (ln - 1) = true ∧ lts = s.stampOf ln)
+    (H3 : ∀ v, p'.lclock = some v → v ≤ s'.now)
+    (H4 : ∀ ln v, p'.freshClock c = some (ln, v) → ln ≠ 0 → s.stampOf ln ≤ unitOf v)
+    (H5 : ∀ x v, p'.holds = some x → p'.lclock = some v → ∃ g, s.supAt x = some g ∧ g ≤ v)
+    (H6 : ∀ lts v, p'.expiring = some (lts, v) → expired lts (unitOf v) = true) : InvR c s' := by
+  have hmono := unitOf_mono hnow
+  have hpcT : s'.pc t = p' := by rw [hpc]; simp
+  have hpcO : ∀ u, u ≠ t → s'.pc u = s.pc u := fun u hu => by rw [hpc, upd_other _ _ hu]
+  constructor
+  · rw [hnext, hhn, hrl]; exact h.chain
+  · rw [hrl]; exact h.rlNodup
+  · intro x hx; rw [hrl] at hx; rw [hpushed]; exact h.rlPushed x hx
+  · intro x hx; rw [hpushed] at hx; rw [hpub]; exact h.pushedPub x hx
+  · intro x hx; rw [hpushed] at hx; rw [hsup]; exact h.pushedSup x hx
+  · intro u x hx
+    rw [hpushed, hsup, hpub]
+    by_cases hu : u = t
+    · subst hu; rw [hpcT] at hx
+      rcases H1 with e | e
+      · rw [e] at hx; exact h.holdsFresh u x hx
+      · rw [e] at hx; cases hx
+    · rw [hpcO u hu] at hx; exact h.holdsFresh u x hx
+  · intro u w x huw hx
+    have key : ∀ a, (s'.pc a).holds = some x → (s.pc a).holds = some x := by
+      intro a ha
+      by_cases hat : a = t
+      · subst hat; rw [hpcT] at ha
+        rcases H1 with e | e
+        · rw [e] at ha; exact ha
+        · rw [e] at ha; cases ha
+      · rw [hpcO a hat] at ha; exact ha
+    intro hw
+    exact h.holdsDistinct u w x huw (key u hx) (key w hw)
+  · rw [hhn, hhts, hstamp]; exact h.headStamp
+  · intro hst x hx; rw [hstale] at hst; rw [hrl] at hx; rw [hsup, hhts]; exact h.rlSup hst x hx
+  · rw [hhts]; exact Nat.le_trans h.htsNow hmono
+  · intro x hx; rw [hpushed] at hx; rw [hstamp]; exact Nat.le_trans (h.stampNow x hx) hmono
+  · intro u lts ln hl hln
+    rw [hpushed, hstamp]
+    by_cases hu : u = t
+    · subst hu; rw [hpcT] at hl; exact H2 lts ln hl hln
+    · rw [hpcO u hu] at hl; exact h.lheadOk u lts ln hl hln
+  · intro u v hl
+    by_cases hu : u = t
+    · subst hu; rw [hpcT] at hl; exact H3 v hl
+    · rw [hpcO u hu] at hl; exact Nat.le_trans (h.lclockNow u v hl) hnow
+  · intro u ln v hl hln
+    rw [hstamp]
+    by_cases hu : u = t
+    · subst hu; rw [hpcT] at hl; exact H4 ln v hl hln
+    · rw [hpcO u hu] at hl; exact h.lclockFresh u ln v hl hln
+  · intro u x v hx hl
+    rw [hsup]
+    by_cases hu : u = t
+    · subst hu; rw [hpcT] at hx hl; exact H5 x v hx hl
+    · rw [hpcO u hu] at hx hl; exact h.lclockSup u x v hx hl
+  · intro u lts v hl
+    by_cases hu : u = t
+    · subst hu; rw [hpcT] at hl; exact H6 lts v hl
+    · rw [hpcO u hu] at hl; exact h.expiring u lts v hl
+  · intro hst x v hf
+    rw [hstale] at hst; rw [hfreed] at hf
+    obtain ⟨g, h1, h2, h3⟩ := h.freedOk hst x v hf
+    exact ⟨g, by rw [hsup]; exact h1, h2, Nat.le_trans h3 hnow⟩
+  · intro hr; rw [hstale]; exact h.rereadOk hr
+
+/-- the retire list's items are all the tables `delete_list` walks over -/
+theorem InvR.items {c : Cfg} {s : State} (h : InvR c s) (ha : InvA s) (next' : Nat → Nat) (n fuel : Nat)
+    (hn : n = s.hnode) (hfuel : fuel = s.nalloc + 2) (hc : Chain next' s.hnode s.rl) : walk next' fuel n = s.rl := by
+  subst hn hfuel
+  apply hc.walk
+  have := nodup_bound s.nalloc s.rl h.rlNodup (fun x hx => ha.pubLe x (h.pushedPub x (h.rlPushed x hx)))
+  omega
+
+theorem headMatches_iff (s : State) (lts ln : Nat) :
+    headMatches s lts ln = true ↔ s.hnode = ln ∧ s.hts % stampMod = lts % stampMod := by
+  simp [headMatches]
+
+
+/-- the whole list is detached from the head word and freed (by gc / by retire's expire branch with the
+clock value they observed, or by the destructor) -/
+def detachSt (s : State) (by_ : Option Nat) : State :=
+  freedTables { s with hts := 0, hnode := 0, rl := [] } s.rl by_
+
+theorem InvR.detach {c : Cfg} {s : State} (h : InvR c s) (by_ : Option Nat)
+    (hby : ∀ v, by_ = some v → v ≤ s.now ∧ (s.hnode ≠ 0 → s.hts + 2 ≤ unitOf v)) : InvR c (detachSt s by_) := by
+  constructor
+  · simp [detachSt, freedTables, Chain]
+  · simp [detachSt, freedTables]
+  · simp [detachSt, freedTables]
+  · exact h.pushedPub
+  · exact h.pushedSup
+  · exact h.holdsFresh
+  · exact h.holdsDistinct
+  · simp [detachSt, freedTables]
+  · simp [detachSt, freedTables]
+  · simp [detachSt, freedTables]
+  · exact h.stampNow
+  · exact h.lheadOk
+  · exact h.lclockNow
+  · exact h.lclockFresh
+  · exact h.lclockSup
+  · exact h.expiring
+  · intro hst x v hf
+    simp only [detachSt, freedTables] at hf hst ⊢
+    split at hf
+    · rename_i hx
+      simp only [Option.some.injEq] at hf
+      obtain ⟨hv, hexp⟩ := hby v hf
+      obtain ⟨g, hg1, hg2⟩ := h.rlSup hst x hx.2
+      have hn : s.hnode ≠ 0 := by
+        intro e
+        have hc := h.chain; rw [e] at hc
+        rw [hc.head_zero] at hx; simp at hx
+      have := hexp hn
+      exact ⟨g, hg1, by omega, hv⟩
+    · exact h.freedOk hst x v hf
+  · exact h.rereadOk
+
+/-- a successful CAS of retire links node `x + 1` in front of the observed head `ln` -/
+theorem InvR.push {c : Cfg} {s : State} (h : InvR c s) (t x ln v nt : Nat) (k : Kont)
+    (hx : (s.pc t).holds = some x) (hv : v ≤ s.now) (hg : ∃ g, s.supAt x = some g ∧ g ≤ v) (hln : ln = s.hnode)
+    (hfresh : c.reread = true → s.hnode ≠ 0 → s.stampOf s.hnode ≤ unitOf v) :
+    InvR c (rCasWWin c s t x ln v nt k) := by
+  obtain ⟨hxp, hxpub, hxsup⟩ := h.holdsFresh t x hx
+  have hxrl : x ∉ s.rl := fun hm => by rw [h.rlPushed x hm] at hxp; cases hxp
+  have hpcT : (rCasWWin c s t x ln v nt k).pc t = .idle := by simp [rCasWWin, finish]
+  have hpcO : ∀ u, u ≠ t → (rCasWWin c s t x ln v nt k).pc u = s.pc u := fun u hu => by
+    simp only [rCasWWin, finish]; rw [upd_other _ _ hu]
+  have hpushedOld : ∀ y, s.pushed y = true → y ≠ x := fun y hy e => by rw [e, hxp] at hy; cases hy
+  have hholdO : ∀ u y, u ≠ t → (s.pc u).holds = some y → y ≠ x := fun u y hu hy e => by
+    rw [e] at hy; exact h.holdsDistinct t u x (Ne.symm hu) hx hy
+  subst hln
+  constructor
+  · simp only [rCasWWin, finish, Chain, upd_same, true_and]
+    refine h.chain.upd_notMem (fun y hy e => hxrl ?_)
+    have hyx : y = x := by omega
+    rw [← hyx]; exact hy
+  · simp only [rCasWWin, finish, List.nodup_cons]; exact ⟨hxrl, h.rlNodup⟩
+  · intro y hy
+    simp only [rCasWWin, finish, List.mem_cons] at hy ⊢
+    rcases hy with rfl | hy
+    · simp
+    · rw [upd_other _ _ (hpushedOld y (h.rlPushed y hy))]; exact h.rlPushed y hy
+  · intro y hy
+    simp only [rCasWWin, finish] at hy ⊢
+    by_cases hyx : y = x
+    · subst hyx; exact hxpub
+    · rw [upd_other _ _ hyx] at hy; exact h.pushedPub y hy
+  · intro y hy
+    simp only [rCasWWin, finish] at hy ⊢
+    by_cases hyx : y = x
+    · subst hyx; exact hxsup
+    · rw [upd_other _ _ hyx] at hy; exact h.pushedSup y hy
+  · intro u y hy
+    by_cases hu : u = t
+    · subst hu; rw [hpcT] at hy; cases hy
+    · rw [hpcO u hu] at hy
+      have hne := hholdO u y hu hy
+      simp only [rCasWWin, finish]
+      rw [upd_other _ _ hne]; exact h.holdsFresh u y hy
+  · intro u w y huw hy hw
+    by_cases hu : u = t
+    · subst hu; rw [hpcT] at hy; cases hy
+    · by_cases hw' : w = t
+      · subst hw'; rw [hpcT] at hw; cases hw
+      · rw [hpcO u hu] at hy; rw [hpcO w hw'] at hw
+        exact h.holdsDistinct u w y huw hy hw
+  · intro _; simp [rCasWWin, finish]
+  · intro hst y hy
+    simp only [rCasWWin, finish, Bool.or_eq_false_iff, Bool.and_eq_false_iff, List.mem_cons] at hst hy ⊢
+    obtain ⟨hst1, hst2⟩ := hst
+    rcases hy with rfl | hy
+    · obtain ⟨g, hg1, hg2⟩ := hg
+      exact ⟨g, hg1, unitOf_mono hg2⟩
+    · obtain ⟨g, hg1, hg2⟩ := h.rlSup hst1 y hy
+      refine ⟨g, hg1, ?_⟩
+      rcases hst2 with hz | hz
+      · have hz : s.hnode = 0 := by simpa using hz
+        have hc := h.chain; rw [hz] at hc; rw [hc.head_zero] at hy; cases hy
+      · have hz : ¬ unitOf v < s.hts := by simpa using hz
+        omega
+  · simp only [rCasWWin, finish]; exact unitOf_mono hv
+  · intro y hy
+    simp only [rCasWWin, finish] at hy ⊢
+    by_cases hyx : y = x
+    · subst hyx; simp only [upd_same]; exact unitOf_mono hv
+    · rw [upd_other _ _ hyx] at hy
+      rw [upd_other _ _ (by omega : y + 1 ≠ x + 1)]; exact h.stampNow y hy
+  · intro u lts ln' hl hln'
+    by_cases hu : u = t
+    · subst hu; rw [hpcT] at hl; cases hl
+    · rw [hpcO u hu] at hl
+      obtain ⟨h1, h2⟩ := h.lheadOk u lts ln' hl hln'
+      have hne := hpushedOld _ h1
+      simp only [rCasWWin, finish]
+      rw [upd_other _ _ hne, upd_other _ _ (by omega : ln' ≠ x + 1)]
+      exact ⟨h1, h2⟩
+  · intro u w hl
+    by_cases hu : u = t
+    · subst hu; rw [hpcT] at hl; cases hl
+    · rw [hpcO u hu] at hl; exact h.lclockNow u w hl
+  · intro u ln' w hl hln'
+    by_cases hu : u = t
+    · subst hu; rw [hpcT] at hl; cases hl
+    · rw [hpcO u hu] at hl
+      obtain ⟨lts, hlh⟩ := Pc.lhead_of_freshClock hl
+      obtain ⟨h1, _⟩ := h.lheadOk u lts ln' hlh hln'
+      have hne := hpushedOld _ h1
+      simp only [rCasWWin, finish]
+      rw [upd_other _ _ (by omega : ln' ≠ x + 1)]
+      exact h.lclockFresh u ln' w hl hln'
+  · intro u y w hy hl
+    by_cases hu : u = t
+    · subst hu; rw [hpcT] at hy; cases hy
+    · rw [hpcO u hu] at hy hl; exact h.lclockSup u y w hy hl
+  · intro u lts w hl
+    by_cases hu : u = t
+    · subst hu; rw [hpcT] at hl; cases hl
+    · rw [hpcO u hu] at hl; exact h.expiring u lts w hl
+  · intro hst y w hf
+    simp only [rCasWWin, finish, Bool.or_eq_false_iff] at hst hf ⊢
+    exact h.freedOk hst.1 y w hf
+  · intro hr
+    simp only [rCasWWin, finish, Bool.or_eq_false_iff, Bool.and_eq_false_iff]
+    refine ⟨h.rereadOk hr, ?_⟩
+    by_cases hz : s.hnode = 0
+    · left; simp [hz]
+    · right
+      have := hfresh hr hz
+      have := h.headStamp hz
+      simp only [decide_eq_false_iff_not]; omega
+
+/-- the publishing CAS on the table pointer: the winner starts retiring the table it replaced -/
+theorem InvR.casWin {c : Cfg} {s : State} (h : InvR c s) (ha : InvA s) (t nt old need : Nat) (made : List Nat) (k : Kont)
+    (hpc : s.pc t = .casT nt old need made k) (hcur : s.cur = old) : InvR c (casWin s t nt old made k) := by
+  subst hcur
+  have hsupOld : ∀ y g, s.supAt y = some g → y ≠ s.cur := fun y g hy e => by rw [e, ha.supCur] at hy; cases hy
+  have hpcT : (Babylon.CVec.casWin s t nt s.cur made k).pc t = .rLoad s.cur nt k := by simp [Babylon.CVec.casWin]
+  have hpcO : ∀ u, u ≠ t → (Babylon.CVec.casWin s t nt s.cur made k).pc u = s.pc u := fun u hu => by
+    simp only [Babylon.CVec.casWin]; rw [upd_other _ _ hu]
+  have hpubMono : ∀ y, s.pub y = true → (Babylon.CVec.casWin s t nt s.cur made k).pub y = true := by
+    intro y hy; simp only [Babylon.CVec.casWin]
+    by_cases hyn : y = nt
+    · subst hyn; simp
+    · rw [upd_other _ _ hyn]; exact hy
+  have hsupKeep : ∀ y g, s.supAt y = some g → (Babylon.CVec.casWin s t nt s.cur made k).supAt y = some g := by
+    intro y g hy; simp only [Babylon.CVec.casWin]; rw [upd_other _ _ (hsupOld y g hy)]; exact hy
+  have hnoR : (s.pc t).isR = false := by rw [hpc]; rfl
+  have hcurUnpushed : s.pushed s.cur = false := by
+    cases hq : s.pushed s.cur with
+    | false => rfl
+    | true => obtain ⟨g, hg⟩ := h.pushedSup _ hq; exact absurd rfl (hsupOld _ g hg)
+  constructor
+  · exact h.chain
+  · exact h.rlNodup
+  · exact h.rlPushed
+  · intro y hy; exact hpubMono y (h.pushedPub y hy)
+  · intro y hy; obtain ⟨g, hg⟩ := h.pushedSup y hy; exact ⟨g, hsupKeep y g hg⟩
+  · intro u y hy
+    by_cases hu : u = t
+    · subst hu; rw [hpcT] at hy; simp only [Pc.holds, Option.some.injEq] at hy; subst hy
+      refine ⟨hcurUnpushed, hpubMono _ ha.pubCur, s.now, ?_⟩
+      simp [Babylon.CVec.casWin]
+    · rw [hpcO u hu] at hy
+      obtain ⟨h1, h2, g, h3⟩ := h.holdsFresh u y hy
+      exact ⟨h1, hpubMono y h2, g, hsupKeep y g h3⟩
+  · intro u w y huw hy hw
+    have key : ∀ a, a ≠ t → (s.pc a).holds = some y → y ≠ s.cur := by
+      intro a _ hay
+      obtain ⟨_, _, g, hg⟩ := h.holdsFresh a y hay
+      exact hsupOld y g hg
+    by_cases hu : u = t
+    · subst hu
+      have hw' : w ≠ u := Ne.symm huw
+      rw [hpcT] at hy; simp only [Pc.holds, Option.some.injEq] at hy
+      rw [hpcO w hw'] at hw
+      exact key w hw' hw hy.symm
+    · rw [hpcO u hu] at hy
+      by_cases hw' : w = t
+      · subst hw'; rw [hpcT] at hw; simp only [Pc.holds, Option.some.injEq] at hw
+        exact key u hu hy hw.symm
+      · rw [hpcO w hw'] at hw; exact h.holdsDistinct u w y huw hy hw
+  · exact h.headStamp
+  · intro hst y hy
+    obtain ⟨g, hg1, hg2⟩ := h.rlSup hst y hy
+    exact ⟨g, hsupKeep y g hg1, hg2⟩
+  · exact h.htsNow
+  · exact h.stampNow
+  · intro u lts ln hl hln
+    by_cases hu : u = t
+    · subst hu; rw [hpcT] at hl; cases hl
+    · rw [hpcO u hu] at hl; exact h.lheadOk u lts ln hl hln
+  · intro u v hl
+    by_cases hu : u = t
+    · subst hu; rw [hpcT] at hl; cases hl
+    · rw [hpcO u hu] at hl; exact h.lclockNow u v hl
+  · intro u ln v hl hln
+    by_cases hu : u = t
+    · subst hu; rw [hpcT] at hl; cases hl
+    · rw [hpcO u hu] at hl; exact h.lclockFresh u ln v hl hln
+  · intro u y v hy hl
+    by_cases hu : u = t
+    · subst hu; rw [hpcT] at hl; cases hl
+    · rw [hpcO u hu] at hy hl
+      obtain ⟨g, hg1, hg2⟩ := h.lclockSup u y v hy hl
+      exact ⟨g, hsupKeep y g hg1, hg2⟩
+  · intro u lts v hl
+    by_cases hu : u = t
+    · subst hu; rw [hpcT] at hl; cases hl
+    · rw [hpcO u hu] at hl; exact h.expiring u lts v hl
+  · intro hst y v hf
+    obtain ⟨g, hg1, hg2, hg3⟩ := h.freedOk hst y v hf
+    exact ⟨g, hsupKeep y g hg1, hg2, hg3⟩
+  · exact h.rereadOk
+
+
+theorem isR_upd (s : State) (t : Nat) (p : Pc) (h0 : (s.pc t).isR = false) (hp : p.isR = false) (u : Nat) :
+    (upd s.pc t p) u = s.pc u ∨ (((upd s.pc t p) u).isR = false ∧ (s.pc u).isR = false) := by
+  by_cases hu : u = t
+  · subst hu; right; simp [hp, h0]
+  · left; rw [upd_other _ _ hu]
+
+theorem freedNone_keeps (f : Nat → Option (Option Nat)) (l : List Nat) (x v : Nat)
+    (h : (if x ≠ 0 ∧ x ∈ l then some none else f x) = some (some v)) : f x = some (some v) := by
+  split at h
+  · cases h
+  · exact h
+
+/-- retire's expire branch = detach everything, then push onto the empty list -/
+theorem rCasXWin_eq {c : Cfg} {s : State} (h : InvR c s) (ha : InvA s) (t x ln v nt : Nat) (k : Kont)
+    (hx : (s.pc t).holds = some x) (hln : ln = s.hnode) :
+    rCasXWin c s t x ln v nt k = rCasWWin c (detachSt s (some v)) t x 0 v nt k := by
+  obtain ⟨hxp, _, _⟩ := h.holdsFresh t x hx
+  have hxrl : ∀ y ∈ s.rl, y + 1 ≠ x + 1 := fun y hy e => by
+    have hyx : y = x := by omega
+    rw [hyx] at hy; rw [h.rlPushed x hy] at hxp; cases hxp
+  have hitems : walk (upd s.next (x + 1) 0) (s.nalloc + 2) ln = s.rl :=
+    h.items ha _ _ _ hln rfl (h.chain.upd_notMem hxrl)
+  simp [rCasXWin, rCasWWin, detachSt, finish, freedTables, listItems, hitems]
+
+theorem gCasWin_eq {c : Cfg} {s : State} (h : InvR c s) (ha : InvA s) (t ln v : Nat) (hln : ln = s.hnode) :
+    gCasWin s t ln v = retUnit (detachSt s (some v)) t := by
+  have hitems : walk s.next (s.nalloc + 2) ln = s.rl := h.items ha _ _ _ hln rfl h.chain
+  simp [gCasWin, retUnit, detachSt, freedTables, listItems, hitems]
+
+theorem xXchgSt_eq {c : Cfg} {s : State} (h : InvR c s) (ha : InvA s) (t : Nat) :
+    xXchgSt s t = { detachSt s none with pc := upd s.pc t .xLoad2 } := by
+  have hitems : walk s.next (s.nalloc + 2) s.hnode = s.rl := h.items ha _ _ _ rfl rfl h.chain
+  simp [xXchgSt, detachSt, freedTables, listItems, hitems]
+
+/-- the clock of a stamp read after the head was observed is not older than the observed stamp -/
+theorem InvR.stamp_le_clock {c : Cfg} {s : State} (h : InvR c s) (t lts ln v : Nat)
+    (hl : (s.pc t).lhead = some (lts, ln)) (hv : s.now ≤ v) (hln : ln ≠ 0) : s.stampOf ln ≤ unitOf v := by
+  obtain ⟨h1, _⟩ := h.lheadOk t lts ln hl hln
+  have := h.stampNow (ln - 1) h1
+  have e : ln - 1 + 1 = ln := by omega
+  rw [e] at this
+  exact Nat.le_trans this (unitOf_mono hv)
+
+theorem InvR.step {c : Cfg} {s s' : State} (h : InvR c s) (ha : InvA s) (hs : Step c s s') : InvR c s' := by
+  cases hs
+  case act t inp ls hst =>
+    have hts := stepThread_TStep hst
+    cases hts
+    case gqFast need k hpc hc =>
+      exact h.frame rfl rfl rfl rfl rfl rfl rfl rfl (fun _ hx => hx) (Nat.le_refl _) (fun _ _ hf => hf)
+        (isR_upd s t _ (by rw [hpc]; rfl) rfl)
+    case gqSlow need k hpc hc =>
+      exact h.frame rfl rfl rfl rfl rfl rfl rfl rfl (fun _ hx => hx) (Nat.le_refl _) (fun _ _ hf => hf)
+        (isR_upd s t _ (by rw [hpc]; rfl) rfl)
+    case casWin nt old need made k hpc hc => exact h.casWin ha t nt old need made k hpc hc
+    case casLoseDone nt old need made k hpc hc hl =>
+      exact h.frame rfl rfl rfl rfl rfl rfl rfl rfl (fun _ hx => hx) (Nat.le_refl _)
+        (fun x v hf => freedNone_keeps _ _ x v hf) (isR_upd s t _ (by rw [hpc]; rfl) rfl)
+    case casLoseRetry nt old need made k hpc hc hl =>
+      exact h.frame rfl rfl rfl rfl rfl rfl rfl rfl (fun _ hx => hx) (Nat.le_refl _) (fun _ _ hf => hf)
+        (isR_upd s t _ (by rw [hpc]; rfl) rfl)
+    case rLoad x nt k hpc =>
+      refine h.pcStep t _ rfl rfl rfl rfl rfl rfl rfl rfl rfl (Nat.le_refl _) rfl rfl ?_ ?_ ?_ ?_ ?_ ?_
+      · left; rw [hpc]; rfl
+      · intro lts ln hl hln
+        simp only [Pc.lhead, Option.some.injEq, Prod.mk.injEq] at hl
+        obtain ⟨rfl, rfl⟩ := hl
+        exact ⟨h.headPushed hln, h.headStamp hln⟩
+      · intro v hl; cases hl
+      · intro ln v hl; cases hl
+      · intro y v _ hl; cases hl
+      · intro lts v hl; cases hl
+    case rClock x lts ln nt k v hpc hv =>
+      have hhold : (s.pc t).holds = some x := by rw [hpc]; rfl
+      have hlh : (s.pc t).lhead = some (lts, ln) := by rw [hpc]; rfl
+      obtain ⟨_, _, g, hg⟩ := h.holdsFresh t x hhold
+      have hgv : g ≤ v := Nat.le_trans (ha.supNow x g hg) hv
+      refine h.pcStep t _ rfl rfl rfl rfl rfl rfl rfl rfl rfl hv rfl rfl ?_ ?_ ?_ ?_ ?_ ?_
+      · left; rw [hpc]; unfold rClockNext; split
+        · rfl
+        · split <;> rfl
+      · intro lts' ln' hl hln
+        have : lts' = lts ∧ ln' = ln := by
+          unfold rClockNext at hl; split at hl
+          · simpa [Pc.lhead, eq_comm] using hl
+          · split at hl <;> simpa [Pc.lhead, eq_comm] using hl
+        obtain ⟨rfl, rfl⟩ := this
+        exact h.lheadOk t lts' ln' hlh hln
+      · intro w hl
+        have : w = v := by
+          unfold rClockNext at hl; split at hl
+          · simpa [Pc.lclock, eq_comm] using hl
+          · split at hl
+            · cases hl
+            · simpa [Pc.lclock, eq_comm] using hl
+        subst this; exact Nat.le_refl _
+      · intro ln' w hl hln
+        have : ln' = ln ∧ w = v := by
+          unfold rClockNext at hl; split at hl
+          · simpa [Pc.freshClock, eq_comm] using hl
+          · split at hl
+            · cases hl
+            · rename_i hr; simp [Pc.freshClock, hr] at hl
+        obtain ⟨rfl, rfl⟩ := this
+        exact h.stamp_le_clock t lts ln' w hlh hv hln
+      · intro y w hy hl
+        have hyx : y = x := by
+          unfold rClockNext at hy; split at hy
+          · simpa [Pc.holds, eq_comm] using hy
+          · split at hy <;> simpa [Pc.holds, eq_comm] using hy
+        have hwv : w = v := by
+          unfold rClockNext at hl; split at hl
+          · simpa [Pc.lclock, eq_comm] using hl
+          · split at hl
+            · cases hl
+            · simpa [Pc.lclock, eq_comm] using hl
+        subst hyx hwv
+        exact ⟨g, hg, hgv⟩
+      · intro lts' w hl
+        unfold rClockNext at hl; split at hl
+        · rename_i he
+          simp only [Pc.expiring, Option.some.injEq, Prod.mk.injEq] at hl
+          obtain ⟨rfl, rfl⟩ := hl
+          exact he
+        · split at hl <;> cases hl
+    case rCasXWin x lts ln v nt k hpc hm =>
+      have hhold : (s.pc t).holds = some x := by rw [hpc]; rfl
+      have hlh : (s.pc t).lhead = some (lts, ln) := by rw [hpc]; rfl
+      obtain ⟨hmn, hmt⟩ := (headMatches_iff s lts ln).mp hm
+      have hvnow : v ≤ s.now := h.lclockNow t v (by rw [hpc]; rfl)
+      rw [rCasXWin_eq h ha t x ln v nt k hhold hmn.symm]
+      have hd : InvR c (detachSt s (some v)) := by
+        apply h.detach
+        intro w hw
+        simp only [Option.some.injEq] at hw; subst hw
+        refine ⟨hvnow, fun hn => ?_⟩
+        have hln : ln ≠ 0 := by rw [← hmn]; exact hn
+        obtain ⟨_, hlts⟩ := h.lheadOk t lts ln hlh hln
+        have hfr := h.lclockFresh t ln v (by rw [hpc]; rfl) hln
+        have hex := h.expiring t lts v (by rw [hpc]; rfl)
+        have hhs := h.headStamp hn
+        rw [hmn, ← hlts] at hhs
+        have := expired_sound lts (unitOf v) (by rw [hlts]; exact hfr) hex
+        have hA : Babylon.Gen.CVec.expireAfter = 1 := rfl
+        rw [hA] at this
+        omega
+      have hsup := h.lclockSup t x v hhold (by rw [hpc]; rfl)
+      exact hd.push t x 0 v nt k hhold hvnow hsup rfl (fun _ hn => absurd rfl hn)
+    case rCasXFail x lts ln v nt k hpc hm =>
+      have hhold : (s.pc t).holds = some x := by rw [hpc]; rfl
+      have hvnow : v ≤ s.now := h.lclockNow t v (by rw [hpc]; rfl)
+      have hsup := h.lclockSup t x v hhold (by rw [hpc]; rfl)
+      refine h.pcStep t _ rfl rfl rfl rfl rfl rfl rfl rfl rfl (Nat.le_refl _) rfl rfl ?_ ?_ ?_ ?_ ?_ ?_
+      · left; rw [hpc]; split <;> rfl
+      · intro lts' ln' hl hln
+        have : lts' = s.hts ∧ ln' = s.hnode := by split at hl <;> simpa [Pc.lhead, eq_comm] using hl
+        obtain ⟨rfl, rfl⟩ := this
+        exact ⟨h.headPushed hln, h.headStamp hln⟩
+      · intro w hl
+        split at hl
+        · cases hl
+        · simp only [Pc.lclock, Option.some.injEq] at hl; subst hl; exact hvnow
+      · intro ln' w hl
+        split at hl
+        · cases hl
+        · rename_i hr; simp [Pc.freshClock, hr] at hl
+      · intro y w hy hl
+        by_cases hr : c.reread = true
+        · rw [if_pos hr] at hl; cases hl
+        · rw [if_neg hr] at hl hy
+          simp only [Pc.lclock, Option.some.injEq] at hl; subst hl
+          simp only [Pc.holds, Option.some.injEq] at hy; subst hy
+          exact hsup
+      · intro lts' w hl; split at hl <;> cases hl
+    case rClock2 x lts ln nt k v hpc hv =>
+      have hhold : (s.pc t).holds = some x := by rw [hpc]; rfl
+      have hlh : (s.pc t).lhead = some (lts, ln) := by rw [hpc]; rfl
+      obtain ⟨_, _, g, hg⟩ := h.holdsFresh t x hhold
+      have hgv : g ≤ v := Nat.le_trans (ha.supNow x g hg) hv
+      refine h.pcStep t _ rfl rfl rfl rfl rfl rfl rfl rfl rfl hv rfl rfl ?_ ?_ ?_ ?_ ?_ ?_
+      · left; rw [hpc]; rfl
+      · intro lts' ln' hl hln
+        simp only [Pc.lhead, Option.some.injEq, Prod.mk.injEq] at hl
+        obtain ⟨rfl, rfl⟩ := hl
+        exact h.lheadOk t _ _ hlh hln
+      · intro w hl; simp only [Pc.lclock, Option.some.injEq] at hl; subst hl; exact Nat.le_refl _
+      · intro ln' w hl hln
+        simp only [Pc.freshClock] at hl
+        split at hl
+        · simp only [Option.some.injEq, Prod.mk.injEq] at hl
+          obtain ⟨rfl, rfl⟩ := hl
+          exact h.stamp_le_clock t lts _ _ hlh hv hln
+        · cases hl
+      · intro y w hy hl
+        simp only [Pc.lclock, Option.some.injEq] at hl; subst hl
+        simp only [Pc.holds, Option.some.injEq] at hy; subst hy
+        exact ⟨g, hg, hgv⟩
+      · intro lts' w hl; cases hl
+    case rCasWWin x lts ln v nt k hpc hm =>
+      have hhold : (s.pc t).holds = some x := by rw [hpc]; rfl
+      obtain ⟨hmn, _⟩ := (headMatches_iff s lts ln).mp hm
+      have hvnow : v ≤ s.now := h.lclockNow t v (by rw [hpc]; rfl)
+      have hsup := h.lclockSup t x v hhold (by rw [hpc]; rfl)
+      refine h.push t x ln v nt k hhold hvnow hsup hmn.symm ?_
+      intro hr hn
+      have := h.lclockFresh t ln v (by rw [hpc]; simp [Pc.freshClock, hr]) (by rw [← hmn]; exact hn)
+      rw [hmn]; exact this
+    case rCasWFail x lts ln v nt k hpc =>
+      have hhold : (s.pc t).holds = some x := by rw [hpc]; rfl
+      have hvnow : v ≤ s.now := h.lclockNow t v (by rw [hpc]; rfl)
+      have hsup := h.lclockSup t x v hhold (by rw [hpc]; rfl)
+      refine h.pcStep t _ rfl rfl rfl rfl rfl rfl rfl rfl rfl (Nat.le_refl _) rfl rfl ?_ ?_ ?_ ?_ ?_ ?_
+      · left; rw [hpc]; split <;> rfl
+      · intro lts' ln' hl hln
+        have : lts' = s.hts ∧ ln' = s.hnode := by split at hl <;> simpa [Pc.lhead, eq_comm] using hl
+        obtain ⟨rfl, rfl⟩ := this
+        exact ⟨h.headPushed hln, h.headStamp hln⟩
+      · intro w hl
+        split at hl
+        · cases hl
+        · simp only [Pc.lclock, Option.some.injEq] at hl; subst hl; exact hvnow
+      · intro ln' w hl
+        split at hl
+        · cases hl
+        · rename_i hr; simp [Pc.freshClock, hr] at hl
+      · intro y w hy hl
+        by_cases hr : c.reread = true
+        · rw [if_pos hr] at hl; cases hl
+        · rw [if_neg hr] at hl hy
+          simp only [Pc.lclock, Option.some.injEq] at hl; subst hl
+          simp only [Pc.holds, Option.some.injEq] at hy; subst hy
+          exact hsup
+      · intro lts' w hl; split at hl <;> cases hl
+    case gLoad hpc =>
+      refine h.pcStep t _ rfl rfl rfl rfl rfl rfl rfl rfl rfl (Nat.le_refl _) rfl rfl ?_ ?_ ?_ ?_ ?_ ?_
+      · right; rfl
+      · intro lts ln hl hln
+        simp only [Pc.lhead, Option.some.injEq, Prod.mk.injEq] at hl
+        obtain ⟨rfl, rfl⟩ := hl
+        exact ⟨h.headPushed hln, h.headStamp hln⟩
+      · intro v hl; cases hl
+      · intro ln v hl; cases hl
+      · intro y v hy; cases hy
+      · intro lts v hl; cases hl
+    case gClockGo lts ln v hpc hv he =>
+      have hlh : (s.pc t).lhead = some (lts, ln) := by rw [hpc]; rfl
+      refine h.pcStep t _ rfl rfl rfl rfl rfl rfl rfl rfl rfl hv rfl rfl ?_ ?_ ?_ ?_ ?_ ?_
+      · right; rfl
+      · intro lts' ln' hl hln
+        simp only [Pc.lhead, Option.some.injEq, Prod.mk.injEq] at hl
+        obtain ⟨rfl, rfl⟩ := hl
+        exact h.lheadOk t _ _ hlh hln
+      · intro w hl; simp only [Pc.lclock, Option.some.injEq] at hl; subst hl; exact Nat.le_refl _
+      · intro ln' w hl hln
+        simp only [Pc.freshClock, Option.some.injEq, Prod.mk.injEq] at hl
+        obtain ⟨rfl, rfl⟩ := hl
+        exact h.stamp_le_clock t lts _ _ hlh hv hln
+      · intro y w hy; cases hy
+      · intro lts' w hl
+        simp only [Pc.expiring, Option.some.injEq, Prod.mk.injEq] at hl
+        obtain ⟨rfl, rfl⟩ := hl
+        exact he
+    case gClockRet lts ln v hpc hv =>
+      refine h.pcStep t .idle rfl rfl rfl rfl rfl rfl rfl rfl rfl hv rfl rfl (Or.inr rfl) ?_ ?_ ?_ ?_ ?_
+      · intro _ _ hl; cases hl
+      · intro _ hl; cases hl
+      · intro _ _ hl; cases hl
+      · intro _ _ hy; cases hy
+      · intro _ _ hl; cases hl
+    case gCasWin lts ln v hpc hm =>
+      have hlh : (s.pc t).lhead = some (lts, ln) := by rw [hpc]; rfl
+      obtain ⟨hmn, hmt⟩ := (headMatches_iff s lts ln).mp hm
+      have hvnow : v ≤ s.now := h.lclockNow t v (by rw [hpc]; rfl)
+      rw [gCasWin_eq h ha t ln v hmn.symm]
+      have hd : InvR c (detachSt s (some v)) := by
+        apply h.detach
+        intro w hw
+        simp only [Option.some.injEq] at hw; subst hw
+        refine ⟨hvnow, fun hn => ?_⟩
+        have hln : ln ≠ 0 := by rw [← hmn]; exact hn
+        obtain ⟨_, hlts⟩ := h.lheadOk t lts ln hlh hln
+        have hfr := h.lclockFresh t ln v (by rw [hpc]; rfl) hln
+        have hex := h.expiring t lts v (by rw [hpc]; rfl)
+        have hhs := h.headStamp hn
+        rw [hmn, ← hlts] at hhs
+        have := expired_sound lts (unitOf v) (by rw [hlts]; exact hfr) hex
+        have hA : Babylon.Gen.CVec.expireAfter = 1 := rfl
+        rw [hA] at this
+        omega
+      refine hd.pcStep t .idle rfl rfl rfl rfl rfl rfl rfl rfl rfl (Nat.le_refl _) rfl rfl (Or.inr rfl) ?_ ?_ ?_ ?_ ?_
+      · intro _ _ hl; cases hl
+      · intro _ hl; cases hl
+      · intro _ _ hl; cases hl
+      · intro _ _ hy; cases hy
+      · intro _ _ hl; cases hl
+    case gCasFail lts ln v hpc =>
+      refine h.pcStep t .idle rfl rfl rfl rfl rfl rfl rfl rfl rfl (Nat.le_refl _) rfl rfl (Or.inr rfl) ?_ ?_ ?_ ?_ ?_
+      · intro _ _ hl; cases hl
+      · intro _ hl; cases hl
+      · intro _ _ hl; cases hl
+      · intro _ _ hy; cases hy
+      · intro _ _ hl; cases hl
+    case sLoad k hpc =>
+      cases k <;> exact h.frame rfl rfl rfl rfl rfl rfl rfl rfl (fun _ hx => hx) (Nat.le_refl _) (fun _ _ hf => hf)
+        (isR_upd s t _ (by rw [hpc]; rfl) rfl)
+    case xLoad hpc =>
+      exact h.frame rfl rfl rfl rfl rfl rfl rfl rfl (fun _ hx => hx) (Nat.le_refl _)
+        (fun x v hf => freedNone_keeps _ _ x v hf) (isR_upd s t _ (by rw [hpc]; rfl) rfl)
+    case xXchg hpc =>
+      rw [xXchgSt_eq h ha t]
+      have hd : InvR c (detachSt s none) := h.detach none (fun _ hw => by cases hw)
+      refine hd.pcStep t .xLoad2 rfl rfl rfl rfl rfl rfl rfl rfl rfl (Nat.le_refl _) rfl rfl (Or.inr rfl) ?_ ?_ ?_ ?_ ?_
+      · intro _ _ hl; cases hl
+      · intro _ hl; cases hl
+      · intro _ _ hl; cases hl
+      · intro _ _ hy; cases hy
+      · intro _ _ hl; cases hl
+    case xLoad2 hpc =>
+      exact h.frame rfl rfl rfl rfl rfl rfl rfl rfl (fun _ hx => hx) (Nat.le_refl _)
+        (fun x v hf => freedNone_keeps _ _ x v hf) (isR_upd s t _ (by rw [hpc]; rfl) rfl)
+  case ensure t i hi hd hx =>
+    exact h.frame rfl rfl rfl rfl rfl rfl rfl rfl (fun _ hx => hx) (Nat.le_refl _) (fun _ _ hf => hf)
+      (isR_upd s t _ (by rw [hi]; rfl) rfl)
+  case reserve t n hi hd hx =>
+    exact h.frame rfl rfl rfl rfl rfl rfl rfl rfl (fun _ hx => hx) (Nat.le_refl _) (fun _ _ hf => hf)
+      (isR_upd s t _ (by rw [hi]; rfl) rfl)
+  case range t b e hi hd hx hbe =>
+    exact h.frame rfl rfl rfl rfl rfl rfl rfl rfl (fun _ hx => hx) (Nat.le_refl _) (fun _ _ hf => hf)
+      (isR_upd s t _ (by rw [hi]; rfl) rfl)
+  case snap t k hi hd hx =>
+    exact h.frame rfl rfl rfl rfl rfl rfl rfl rfl (fun _ hx => hx) (Nat.le_refl _) (fun _ _ hf => hf)
+      (isR_upd s t _ (by rw [hi]; rfl) rfl)
+  case gc t hi hd hx =>
+    -- gLoad is a retire-list program counter without any local yet
+    refine h.pcStep t .gLoad rfl rfl rfl rfl rfl rfl rfl rfl rfl (Nat.le_refl _) rfl rfl (Or.inr rfl) ?_ ?_ ?_ ?_ ?_
+    · intro _ _ hl; cases hl
+    · intro _ hl; cases hl
+    · intro _ _ hl; cases hl
+    · intro _ _ hy; cases hy
+    · intro _ _ hl; cases hl
+  case destroy t hi hd =>
+    exact h.frame rfl rfl rfl rfl rfl rfl rfl rfl (fun _ hx => hx) (Nat.le_refl _) (fun _ _ hf => hf)
+      (isR_upd s t _ (by rw [hi t]; rfl) rfl)
+  case tick d =>
+    exact h.frame rfl rfl rfl rfl rfl rfl rfl rfl (fun _ hx => hx) (Nat.le_add_right _ _) (fun _ _ hf => hf)
+      (fun _ => Or.inl rfl)
 
 end Babylon.CVec
